@@ -307,13 +307,18 @@ func (sp *MsgSpec) Build() (*mail.Msg, []string, error) {
 		oks, strs, bares := parseAll(m, a)
 		switch a.Mode {
 		case "set":
-			joinable := len(a.Values) > 0
+			joinable := true
 			for _, v := range a.Values {
 				if strings.Contains(v, ",") || strings.TrimSpace(v) != v || v == "" {
 					joinable = false
 				}
 			}
-			switch v := pick(3); {
+			v := pick(3)
+			if len(a.Values) == 0 && a.Kind >= 2 && a.Kind <= 4 {
+				// emptying a list: through every entry point, whatever the variant seed says
+				v = (len(ops) + a.Kind) % 3
+			}
+			switch {
 			case v == 1 && a.Kind == 0 && len(a.Values) == 1:
 				_ = m.From(a.Values[0])
 			case v == 1 && a.Kind == 1 && len(a.Values) == 1:
@@ -327,11 +332,12 @@ func (sp *MsgSpec) Build() (*mail.Msg, []string, error) {
 			case v == 1 && a.Kind == 4:
 				_ = m.Bcc(a.Values...)
 			case v == 2 && a.Kind == 2 && joinable:
-				_ = m.ToFromString(strings.Join(a.Values, ", "))
+				// an empty list: "", blanks, separators only
+				_ = m.ToFromString(strings.Join(a.Values, ", ") + []string{"", " ", ",", " , ,"}[pick(4)])
 			case v == 2 && a.Kind == 3 && joinable:
-				_ = m.CcFromString(strings.Join(a.Values, " ,"))
+				_ = m.CcFromString([]string{"", " ", ",", ", "}[pick(4)] + strings.Join(a.Values, " ,"))
 			case v == 2 && a.Kind == 4 && joinable:
-				_ = m.BccFromString(strings.Join(a.Values, ","))
+				_ = m.BccFromString(strings.Join(a.Values, ",") + []string{"", "", ",", " "}[pick(4)])
 			default:
 				_ = m.SetAddrHeader(addrKinds[a.Kind], a.Values...)
 			}
